@@ -191,8 +191,7 @@ theorem rmData_shrinks (s : State) (set : String) (d : Ref) (strict : Bool) (hi 
   · exact Shrinks.refl s
   · split
     · exact Shrinks.refl s
-    · simp only []
-      split
+    · split
       · exact Shrinks.refl s
       · split
         · rename_i s1 h1; exact rmDataH_shrinks s s1 _ _ strict hi h1
